@@ -85,12 +85,14 @@ func H_Order_Two() {
 	}
 	inbox := inboxOf(all, self)
 	href, _ := NewTwoPartyHandler(stubStart(cfg, self, twoIDs), sid, leader)
+	vsym.Consumed(href.Listen()) // the user reads Listen() concurrently: one Accept may emit more messages than the buffer holds
 	for _, m := range inbox {
-		href.Accept(m)
+		acceptDrain(href, m)
 	}
 	want, err := href.Result()
 	vsym.Assert(err == nil, "in-order run completes")
 	h, _ := NewTwoPartyHandler(stubStart(cfg, self, twoIDs), sid, leader)
+	vsym.Consumed(h.Listen())
 	// arbitrary permutation with one optional duplicate
 	used := make([]bool, len(inbox))
 	for range inbox {
@@ -103,10 +105,10 @@ func H_Order_Two() {
 		i := free[vsym.Choose("next", len(free))]
 		used[i] = true
 		_ = drain(h)
-		h.Accept(inbox[i])
+		acceptDrain(h, inbox[i])
 		if vsym.Choose("dup", 2) == 1 {
 			_ = drain(h)
-			h.Accept(inbox[i])
+			acceptDrain(h, inbox[i])
 		}
 	}
 	_ = drain(h)
@@ -131,7 +133,7 @@ func H_Filter_Two() {
 		h, err := NewTwoPartyHandler(stubStart(cfg, "b", twoIDs), sid, false)
 		vsym.Assume(err == nil)
 		for i := 0; i < k; i++ {
-			h.Accept(inbox[i])
+			acceptDrain(h, inbox[i])
 			_ = drain(h)
 		}
 		return h
